@@ -39,6 +39,9 @@ def own_obligations(tier):
     o.append(Obl("revive_user_pool", "C18/revive_fail.c", "ABT_thread_revive / ABT_task_revive into a built-in pool or a user-defined pool whose unit creation / registration fails (symbolic): a failed revive leaves the unit TERMINATED with its old function, argument, association and no unit leaked; a successful one makes it READY with the new function and pushes it once",
                  unwind=4, unwindset=["ABTD_spinlock_acquire.0:2", "ABTD_spinlock_acquire.1:2"], object_bits=11, backend="cadical", no_std=["--pointer-overflow-check"],
                  encodes=["ABT_thread_revive", "ABT_task_revive", "thread_revive", "ABTI_thread_set_associated_pool"], bounds="one revive", symbolic="unit kind, target pool kind, failure of unit creation / registration"))
+    o.append(Obl("ktable_grow_fail", "C18/ktable_fail2.c", "real ABTI_ktable_set adding a key to an existing table whose spare space is used up, the allocation of the next block failing (symbolic): error code, old entries untouched, the table's lock released on every path, retry succeeds",
+                 unwind=5, cut_loops=["ABTD_spinlock_acquire.0", "ABTD_spinlock_acquire.1"], object_bits=10, backend="cadical", no_std=["--pointer-overflow-check"],
+                 encodes=["ABTI_ktable_set", "ABTI_ktable_set_impl", "ABTI_ktable_alloc_elem", "ABTI_ktable_get"], bounds="1-slot table with one element, one new key (+ retry)", symbolic="allocation failure"))
     o.append(Obl("ktable_lazy_create", "C18/ktable_fail.c", "real ABTI_ktable_set on a unit without a key table: its own table allocation may fail (error, pointer NULL again -- not left locked --, retry succeeds) and another agent may be creating the table at the same time and fail or succeed (model of its two steps, placed at the focus' atomic accesses and polling points): the focus retries, never uses a NULL or locked table",
                  defs=["VR_HOOK_PAUSE"], unwind=4, unwindset=["ABTD_spinlock_acquire.0:2", "ABTD_spinlock_acquire.1:2"], cut_loops=["ABTI_ktable_set@while \\(p_ktable == ABTI_KTABLE_LOCKED:3"], object_bits=10, backend="cadical", no_std=["--pointer-overflow-check"], timeout=300, mem_gb=8,
                  encodes=["ABTI_ktable_set", "ABTI_ktable_create", "ABTI_ktable_set_impl", "ABTI_ktable_get"], bounds="one set (+ one retry), one concurrent creator", symbolic="own allocation failure, the other creator's presence, timing and outcome"))
